@@ -124,7 +124,7 @@ def run(ctx: core.Ctx) -> int:
     gens = ctx.gen_json("AnnotateMC", "Gen_C11.cfg")
     ctx.exhaustive = True
     cases = build(ctx, rnd, gens)
-    evl = core.pmap(annhist.run_history, cases, chunksize=8)
+    evl = ctx.pmap(annhist.run_history, cases, chunksize=8)
     events = [e for es in evl for e in es]
     for ev in events[:: max(1, len(events) // 5)][:5]:
         ctx.samples.append({"case": json.loads(ev["label"]), "cmd": ev["cmd"], "exit": ev["exit"], "treeUnchanged": ev["treeUnchanged"],
@@ -149,4 +149,4 @@ def run(ctx: core.Ctx) -> int:
 
 
 def replay(ctx: core.Ctx, path: str) -> int:
-    raise core.MachineryError("replay for the annotate family re-runs the case list; use the check with the same VERIF_SEED")
+    return core.generic_replay(ctx, path)
